@@ -198,4 +198,30 @@ def r11(ctx: Ctx):
     return obs
 
 
-RULES = [("R11", r11, 12)]
+def r11_4(ctx: Ctx):
+    """R11.4 `current_population` is the last recorded generation: last element of the flattened (metaepoch-by-metaepoch, in order) history."""
+    base = ctx.prog.cls("AbstractDeme")
+    obs = []
+    cp = base.methods.get("current_population")
+    h = base.methods.get("history")
+    if cp is None or h is None:
+        raise AnalysisError("AbstractDeme.current_population / history accessors vanished")
+    sn = cp.self_name()
+    rets = [r for r in body_walk(cp.node) if isinstance(r, ast.Return)]
+    ok = len(rets) == 1 and norm(rets[0].value).replace(" ", "") in (f"{sn}.history[-1]", f"{sn}._history[-1][-1]")
+    obs.append(ctx.ob("R11.4", cp, rets[0] if rets else cp.node, status=OK if ok else VIOLATION, detail="current_population = last generation of the history" if ok else f"current_population returns `{norm(rets[0].value) if rets else '?'}`, which is not the last recorded generation (the next metaepoch / centroid / sprout candidates would be taken from an older generation)", construct="current_population"))
+    hs = h.self_name()
+    rets = [r for r in body_walk(h.node) if isinstance(r, ast.Return)]
+    okh = False
+    if len(rets) == 1 and isinstance(rets[0].value, ast.ListComp) and len(rets[0].value.generators) == 2:
+        g1, g2 = rets[0].value.generators
+        okh = norm(g1.iter) == f"{hs}._history" and isinstance(g1.target, ast.Name) and norm(g2.iter) == g1.target.id and isinstance(g2.target, ast.Name) and norm(rets[0].value.elt) == g2.target.id and not g1.ifs and not g2.ifs
+    obs.append(ctx.ob("R11.4", h, rets[0] if rets else h.node, status=OK if okh else VIOLATION, detail="history = all generations, metaepoch by metaepoch, in order" if okh else f"history is `{norm(rets[0].value) if rets else '?'}`, not the in-order flattening of the per-metaepoch generation lists", construct="history"))
+    for ci in ctx.prog.subclasses(base):
+        for nm in ("current_population", "history"):
+            if nm in ci.methods:
+                obs.append(ctx.ob("R11.4", ci.methods[nm], None, status=VIOLATION, detail=f"{ci.name} overrides `{nm}`", construct=f"{ci.name}.{nm}"))
+    return obs
+
+
+RULES = [("R11", r11, 12), ("R11.4", r11_4, 2)]
